@@ -4,7 +4,7 @@ from . import p2lib as L
 from . import par2common as P
 from . import par2writer as W
 
-BASES = ["arc", "my[1]", "we*ird", "a b", "q?x", "back\\slash", "br{ace}", "dots.in.name", "[", "x]y[z"]
+BASES = ["arc", "Arc", "MiXed.Case", "my[1]", "we*ird", "a b", "q?x", "back\\slash", "br{ace}", "dots.in.name", "[", "x]y[z"]
 VOLNAMES = ["vol00+01", "vol7+3", "x", "a b", "part1", "more blocks", "[1]", "*", "z.y"]
 
 
@@ -95,7 +95,7 @@ def run(ctx):
                 fs[P.DIR + "/" + a], fs[P.DIR + "/" + b] = fs[P.DIR + "/" + b], fs[P.DIR + "/" + a]
             fs.update(lay)
             fs[P.DIR + "/unrelated.par2.bak"] = b"zzz"
-            special = any(ch in base for ch in "[]*?\\{")
+            special = any(ch in base for ch in "[]*?\\{") or base != base.lower()
             mode = "real" if (special or rng.random() < 0.3) else "mem"
             dirs = L.parent_dirs([P.DIR + "/" + n for n in names])
             cases.append({"ss": ss, "files": dict(files), "fs": fs, "index": index, "base": base, "exps": sorted(set(expset)),
